@@ -204,6 +204,7 @@ fn canon_entry(c: &mut Canon, e: &EntrySnap, s: &Snapshot, now: Instant, vids: &
     c.u32(it.id(e.entry_addr));
     c.u32(it.id(e.info_addr));
     c.u32(e.weight);
+    c.u32(e.accounted);
     c.i64(rel_ms(e.last_accessed, now));
     c.i64(rel_ms(e.last_modified, now));
     c.u8(e.dirty as u8);
@@ -998,8 +999,8 @@ pub fn step(cfg: &Cfg, sut: &mut Sut, m: &mut Model, pre: &Snapshot, op: Op, has
     }
 
     // ---- C10 (S, every snapshot): the published counters equal what maintenance has
-    // admitted so far: one per admitted entry, weighing what it weighed when it was
-    // last accounted (the old weight of its first queued update, else its weight).
+    // admitted so far: one per admitted entry, with the weight it has accounted for
+    // it (at quiescence the clause above compares with the weights really stored).
     if !u {
         let (want_ec, want_ws) = admitted_accounting(&post);
         if post.entry_count != want_ec || post.weighted_size != want_ws {
@@ -1151,13 +1152,13 @@ pub fn step(cfg: &Cfg, sut: &mut Sut, m: &mut Model, pre: &Snapshot, op: Op, has
     StepOut { obs, post: Some(post), viol, pending, dead: false }
 }
 
-/// info address -> (weight as last accounted by maintenance) for admitted entries,
-/// collected from the map and from everything the queued ops reference.
+/// info address -> weight accounted by maintenance, for admitted entries, collected
+/// from the map and from everything the queued ops reference.
 fn admitted_infos(s: &Snapshot) -> BTreeMap<usize, u64> {
     let mut out: BTreeMap<usize, u64> = BTreeMap::new();
     let mut note = |e: &EntrySnap| {
         if e.admitted {
-            out.entry(e.info_addr).or_insert(e.weight as u64);
+            out.entry(e.info_addr).or_insert(e.accounted as u64);
         }
     };
     for e in &s.entries {
@@ -1167,17 +1168,6 @@ fn admitted_infos(s: &Snapshot) -> BTreeMap<usize, u64> {
         match op {
             OpSnap::Hit { entry, .. } | OpSnap::Upsert { entry, .. } | OpSnap::Remove { entry } => note(entry),
             OpSnap::Miss { .. } => {}
-        }
-    }
-    // an update still queued has not been accounted: the entry counts with the old
-    // weight of its FIRST queued update
-    let mut seen: Vec<usize> = Vec::new();
-    for op in &s.write_ops {
-        if let OpSnap::Upsert { entry, old_weight, .. } = op {
-            if entry.admitted && !seen.contains(&entry.info_addr) {
-                seen.push(entry.info_addr);
-                out.insert(entry.info_addr, *old_weight as u64);
-            }
         }
     }
     out
